@@ -380,7 +380,11 @@ def regenerate_all(skip=()):
         from translator import shapes as sh
         put("Shapes.lean", sh.render(sh.extract(REPO)))
 
-    for name, fn in (("harr", harr), ("tables", tables_), ("vec", vec), ("conf", conf), ("md5", md5), ("tree", tree), ("lock", lock), ("shapes", shapes)):
+    def fmt():
+        from translator import fmtmacro
+        put("FmtMacro.lean", fmtmacro.render(fmtmacro.extract(REPO)))
+
+    for name, fn in (("harr", harr), ("tables", tables_), ("vec", vec), ("conf", conf), ("md5", md5), ("tree", tree), ("lock", lock), ("shapes", shapes), ("fmt", fmt)):
         if name in skip:
             continue
         try:
